@@ -278,10 +278,10 @@ func (r *receiver) run(ctx context.Context) error {
 						}
 						metadataParents.pop()
 					}
-					if isDir {
-						metadataParents.push(cp)
-					}
 					if metaOnly {
+						if isDir {
+							metadataParents.push(cp)
+						}
 						continue
 					} else {
 						for _, cp := range metadataParents.items {
